@@ -1224,6 +1224,9 @@ class Engine:
             return [(s.fork(z3.Not(rb.t)), NORMAL, Unknown('op', ta)), (s.fork(rb.t), RAISE, Unknown('exc'))]
         if is_mp_object(a) or is_mp_object(b):
             return self.object_binop(s, opt, a, b, fr, inplace)
+        from .models import SFloat
+        if isinstance(a, SFloat) or isinstance(b, SFloat):
+            return [(s, NORMAL, self.sfloat_binop(op, a, b))]
         G.CUR = (self, s.pc)
         try:
             if isinstance(a, (tuple, list, str)) or isinstance(b, (tuple, list, str)):
@@ -1241,6 +1244,15 @@ class Engine:
             return [(s, RAISE, e)]
         finally:
             G.CUR = None
+
+    def sfloat_binop(self, op, a, b):
+        """the float model supports exact scaling by a concrete power of two only"""
+        from .models import SFloat
+        if op is operator.mul:
+            f, k = (a, b) if isinstance(a, SFloat) else (b, a)
+            if isinstance(k, int) and not isinstance(k, bool) and k > 0 and k & (k - 1) == 0:
+                return SFloat(f.m, binop(operator.add, f.e, k.bit_length() - 1))
+        raise Unsupported('float-model arithmetic other than scaling by a power of two')
 
     def seq_binop(self, op, a, b):
         if op is operator.add and type(a) is type(b):
